@@ -70,12 +70,12 @@ impl TcpStream {
 
     /// rdest only connects from `PeerHandler::run_incoming`; the model refuses or hands out an
     /// empty stream that the peer closed at once (nondeterministic).
-    pub async fn connect<A>(_addr: A) -> io::Result<TcpStream> {
-        if crate::model::nondet::boolean() {
+    pub fn connect<A>(_addr: A) -> std::future::Ready<io::Result<TcpStream>> {
+        std::future::ready(if crate::model::nondet::boolean() {
             Err(io::Error::from(io::ErrorKind::ConnectionRefused))
         } else {
             Ok(TcpStream::scripted(Vec::new(), true).0)
-        }
+        })
     }
 
     pub fn peer_addr(&self) -> io::Result<SocketAddr> {
@@ -128,12 +128,12 @@ impl StreamHandle {
 pub struct TcpListener {}
 
 impl TcpListener {
-    pub async fn bind<A>(_addr: A) -> io::Result<TcpListener> {
-        Ok(TcpListener {})
+    pub fn bind<A>(_addr: A) -> std::future::Ready<io::Result<TcpListener>> {
+        std::future::ready(Ok(TcpListener {}))
     }
 
     /// No inbound connection ever arrives in the model.
-    pub async fn accept(&self) -> io::Result<(TcpStream, SocketAddr)> {
-        std::future::pending().await
+    pub fn accept(&self) -> std::future::Pending<io::Result<(TcpStream, SocketAddr)>> {
+        std::future::pending()
     }
 }
